@@ -610,7 +610,12 @@ fn single_generator_pass(w: &Walker, sink: &Sink, rep: &mut Report, cap: usize) 
     let mut g = MoveGenerator::new();
     let mut asked = 0u64;
     let mut arbitrations = 0;
+    let before = sink.count();
     for k in keys.iter() {
+        if sink.count() > before + 500 {
+            rep.notes.push("single-generator pass stopped after 500 violations".into());
+            break;
+        }
         let pos = uncanon(k);
         let mut board = build_board(&pos);
         let turn = color_of(pos.stm);
@@ -674,7 +679,13 @@ fn single_generator_verdict_pass(w: &Walker, sink: &Sink, rep: &mut Report, cap:
     }
     let mut g = MoveGenerator::new();
     let mut asked = 0u64;
+    let mut arbitrations = 0u32;
+    let before = sink.count();
     for k in keys.iter() {
+        if sink.count() > before + 500 {
+            rep.notes.push("single-generator verdict pass stopped after 500 violations".into());
+            break;
+        }
         let pos = uncanon(k);
         let mut board = build_board(&pos);
         let turn = color_of(pos.stm);
@@ -698,7 +709,9 @@ fn single_generator_verdict_pass(w: &Walker, sink: &Sink, rep: &mut Report, cap:
                     None => "none",
                 };
                 if got != want {
-                    let fresh = guarded(|| evaluate::game_ending(&mut board, &mut MoveGenerator::new(), turn)).map(|e| format!("{:?}", e));
+                    // a brand-new generator costs ~100 ms: only the first few disagreements get one
+                    arbitrations += 1;
+                    let fresh = if arbitrations <= 20 { guarded(|| evaluate::game_ending(&mut board, &mut MoveGenerator::new(), turn)).map(|e| format!("{:?}", e)) } else { Err("(not asked: arbiter budget used up)".to_string()) };
                     sink.push(Violation { prop: "C06".into(), class: "game-ending-verdict(single-generator-pass)".into(), seed: pos.to_fen(), path: vec![], detail: format!("one generator asked about all explored states in key order: state number {} is judged {}, the rules say {}; a brand-new generator says {:?}", asked, got, want, fresh), extra: json!({"kind": "c06-pass"}) });
                 }
             }
@@ -795,6 +808,8 @@ fn twin_pass(prop: &str, w: &Walker, sink: &Sink, rep: &mut Report, threads: usi
             "none"
         }
     };
+    let arb = std::sync::atomic::AtomicU32::new(0);
+    let before = sink.count();
     pool.install(|| {
         keys.par_chunks(chunk).for_each(|ks| {
             // generator A sees each state before its twins, generator B the twins first
@@ -812,11 +827,18 @@ fn twin_pass(prop: &str, w: &Walker, sink: &Sink, rep: &mut Report, threads: usi
                             let mut got: Vec<MoveDesc> = ms.iter().map(describe_impl).collect();
                             got.sort();
                             if got != want {
-                                let fresh = guarded(|| MoveGenerator::new().generate_moves(&mut board, turn)).map(|v| {
-                                    let mut d: Vec<MoveDesc> = v.iter().map(describe_impl).collect();
-                                    d.sort();
-                                    d
-                                });
+                                // the brand-new generator only tells a history-dependent answer (C02) from a
+                                // plainly wrong one (C01); after the budget every disagreement is reported
+                                let within = arb.fetch_add(1, std::sync::atomic::Ordering::Relaxed) < 60;
+                                let fresh = if within {
+                                    guarded(|| MoveGenerator::new().generate_moves(&mut board, turn)).map(|v| {
+                                        let mut d: Vec<MoveDesc> = v.iter().map(describe_impl).collect();
+                                        d.sort();
+                                        d
+                                    })
+                                } else {
+                                    Ok(want.clone())
+                                };
                                 if fresh != Ok(got.clone()) {
                                     sink.push(Violation { prop: "C02".into(), class: "served-a-twin-positions-answer".into(), seed: p.to_fen(), path: vec![], detail: format!("generator asked about a position and its twins (same placement, other en-passant possibility / castling rights; {}): for {} it answers {:?}", order, p.to_fen(), diff_move_lists(&got, &want)), extra: json!({"kind": "c02-twins", "order": order}) });
                                 }
@@ -877,6 +899,9 @@ fn twin_pass(prop: &str, w: &Walker, sink: &Sink, rep: &mut Report, threads: usi
                 }
             };
             for k in ks {
+                if sink.count() > before + 500 {
+                    break;
+                }
                 let p = uncanon(k);
                 let ts = twins(&p);
                 let has_ep = p.ep.is_some();
